@@ -262,6 +262,77 @@ def check_twins(ctx, X, kind, terms=None):
         terms["walk_meta"].append(dict(key, draws=draws))
 
 
+def check_twins_history(ctx, X, kind):
+    """Repeated draws on one object with a change of the data in between
+    (normalize_original_data, directly or through original_distribution):
+    the twins and every step of the next surrogate must be those of the
+    CURRENT data, computed here independently of the object's own twins()."""
+    from pyunicorn.timeseries.surrogates import Surrogates
+    rng = ctx.rng
+    N, T = X.shape
+    dim = rng.choice([1, 2, 3])
+    delay = rng.choice([1, 2])
+    if T - (dim - 1) * delay < 6:
+        dim, delay = 1, 1
+    md = rng.choice([0, 1, 2, 3])
+    thr = rng.choice([0.25, 0.5, 1.0])
+    i = rng.randrange(N)
+    x1 = np.round(X[i:i + 1] * 2) / 4 + 3.0 \
+        + 1e-3 * np.arange(T)[None, :] / T
+    change = rng.choice(["normalize_original_data", "original_distribution",
+                         "none"])
+    key = {"data": x1.tolist(), "dimension": dim, "delay": delay,
+           "threshold": thr, "min_dist": md, "between_draws": change}
+    ctx.count(key, nontrivial=T >= 8)
+    ctx.stat("twins history:" + change)
+    s1 = Surrogates(x1.copy(), silence_level=3)
+    where = "Surrogates.twin_surrogates"
+    try:
+        for _ in range(rng.randint(1, 2)):
+            s1.twin_surrogates(dim, delay, thr, md)
+        if change == "normalize_original_data":
+            s1.normalize_original_data()
+        elif change == "original_distribution":
+            s1.original_distribution(lambda a, b: np.corrcoef(a), n_bins=4)
+        out = np.asarray(s1.twin_surrogates(dim, delay, thr, md))
+        tw_obj = [sorted(int(v) for v in t) for t in s1.twins(thr, md)[0]]
+    except Exception as e:
+        ctx.violation(where, "raises", dict(key, err=f"{type(e).__name__}: "
+                                            f"{e}"), {"kind": "exception"})
+        return
+    data = np.asarray(s1.original_data, float)[0]
+    n1 = T - (dim - 1) * delay
+    emb = np.stack([data[k * delay:k * delay + n1] for k in range(dim)],
+                   axis=1)
+    D = np.abs(emb[:, None, :] - emb[None, :, :]).max(axis=2)
+    # a distance within rounding of the threshold decides nothing
+    if np.any(np.abs(D - thr) < 1e-9):
+        ctx.stat("twins history: distance on the threshold (skipped)")
+        return
+    want = spec_twins((D <= thr).astype(int), md)
+    if tw_obj != want:
+        ctx.violation("Surrogates.twins", "after " + change + " and a new "
+                      "draw the twins are not those of the current data",
+                      dict(key, got=tw_obj, want=want), {"history": True})
+        return
+    idx = {float(v): k for k, v in enumerate(data)}
+    try:
+        visited = [idx[float(v)] for v in out[0]]
+    except KeyError:
+        ctx.violation(where, "contains a value that is not a state of the "
+                      "current data", dict(key, surrogate=out.tolist()),
+                      {"history": True})
+        return
+    for a, b_ in zip(visited, visited[1:]):
+        succ = {a + 1} | {t + 1 for t in want[a]} if a < n1 else set()
+        if b_ not in succ and not any(v >= n1 for v in succ):
+            ctx.violation(where, f"step {a} -> {b_} is neither the successor "
+                          f"of {a} nor of one of its twins {want[a]} "
+                          "(twins of the current data)",
+                          dict(key, visited=visited), {"history": True})
+            return
+
+
 def _static(cls):
     import inspect
     return isinstance(inspect.getattr_static(cls, "embed_time_series_array"),
@@ -344,6 +415,11 @@ def run_all(ctx, terms=None):
                          T=rng.choice([8, 10, 12, 14, 20, 30]),
                          kind=rng.choice(["sine", "ar", "gauss"]))
         check_twins(ctx, X, kind, terms)
+    for _ in range(ctx.n(25, 150)):
+        X, kind = series(rng, N=rng.choice([1, 2]),
+                         T=rng.choice([12, 16, 20, 30]),
+                         kind=rng.choice(["sine", "ar", "gauss"]))
+        check_twins_history(ctx, X, kind)
     for _ in range(ctx.n(15, 100)):
         check_rp_twins(ctx, terms)
 
